@@ -45,6 +45,13 @@ def cases(tier, seed):
     for k in range(nrand):
         out.append({'kind': 'random', 'seed': seed * 1000 + k,
                     'count': 400 if tier == 'thorough' else 150})
+    # large, deep graphs whose components are known by construction
+    # (the O(n^3) oracle is not needed): long chains, big rings, rings
+    # with tails, chains of rings
+    for k in range(6 if tier == 'thorough' else 2):
+        out.append({'kind': 'deep', 'seed': seed * 1000 + k,
+                    'sizes': [1200, 3000, 6000] if tier == 'thorough'
+                    else [1500, 4000]})
     nreal = 48 if tier == 'thorough' else 8
     for k in range(nreal):
         out.append({'kind': 'real', 'seed': seed * 1000 + k,
@@ -186,6 +193,72 @@ LABELSETS = {
 }
 
 
+def check_deep(DiGraph, n, shape, rng, stats, viol):
+    """Graphs with simple paths of thousands of nodes."""
+    edges = []
+    if shape == 'chain':
+        edges = [(i, i + 1) for i in range(n - 1)]
+        want = []
+    elif shape == 'ring':
+        edges = [(i, (i + 1) % n) for i in range(n)]
+        want = [frozenset(range(n))]
+    elif shape == 'ring+tail':
+        m = n // 2
+        edges = [(i, (i + 1) % m) for i in range(m)] + \
+            [(i, i + 1) for i in range(m - 1, n - 1)]
+        want = [frozenset(range(m))]
+    elif shape == 'rings':
+        # a chain of rings of 50 nodes each
+        want = []
+        for a in range(0, n - 50, 50):
+            edges += [(a + i, a + (i + 1) % 50) for i in range(50)]
+            edges.append((a, a + 50))
+            want.append(frozenset(range(a, a + 50)))
+        a = (n - 50) // 50 * 50
+        edges += [(a + i, a + i + 1) for i in range(n - a - 1)]
+    else:   # ladder: 0<->1->2<->3->...->0 : one component
+        for i in range(0, n - 1, 2):
+            edges += [(i, i + 1), (i + 1, i)]
+            edges.append((i + 1, (i + 2) % n))
+        if n % 2:
+            edges.append((n - 1, 0))
+        want = [frozenset(range(n))]
+    mode = rng.choice(['id', 'plain', 'ideq'])
+    order = list(range(n))
+    if rng.random() < 0.5:
+        rng.shuffle(order)
+    if mode == 'plain':
+        objs = list(range(n))
+        g = DiGraph([objs[i] for i in order], make_hashable=None)
+        key = (lambda x: x)
+    else:
+        objs = [ID_MODES[mode](i) for i in range(n)]
+        g = DiGraph([objs[i] for i in order])
+        key = id
+    adj = {}
+    for a, b in edges:
+        adj.setdefault(a, []).append(b)
+    for i in order:
+        g.add_neighbors(objs[i], [objs[j] for j in adj.get(i, [])])
+    idx = {key(o): i for i, o in enumerate(objs)}
+    stats['sccs_calls'] += 1
+    stats['deep_graphs'] = stats.get('deep_graphs', 0) + 1
+    desc = {'deep': shape, 'n': n, 'mode': mode}
+    try:
+        got = [frozenset(idx[key(o)] for o in c) for c in g.sccs()]
+    except BaseException as e:
+        viol.append({'rule': 'sccs-raises', 'mech': 'sccs-raises-' +
+                     type(e).__name__,
+                     'detail': dict(desc, err=repr(e)[:200])})
+        return
+    if sorted(map(sorted, got)) != sorted(map(sorted, want)):
+        viol.append({'rule': 'sccs-wrong', 'mech': 'sccs-wrong',
+                     'detail': dict(desc, got=len(got), want=len(want),
+                                    sizes=sorted(len(c) for c in got)[:6])})
+    if want:
+        stats['nontrivial'] += 1
+
+
 def run_case(case):
     from zope.testrunner.digraph import DiGraph
     import ztr_monitor
@@ -256,6 +329,12 @@ def run_case(case):
                         viol, desc, skip_sink_call=rng.random() < 0.3,
                         unknown=rng.random() < 0.3)
         sample = {'kind': 'random', 'seed': case['seed']}
+    elif kind == 'deep':
+        rng = random.Random(case['seed'])
+        for n in case['sizes']:
+            for shape in ('chain', 'ring', 'ring+tail', 'rings', 'ladder'):
+                check_deep(DiGraph, n, shape, rng, stats, viol)
+        sample = {'kind': 'deep', 'sizes': case['sizes']}
     elif kind == 'real':
         return run_real(case)
     # the in-run contract must have agreed as well
